@@ -56,6 +56,9 @@ def may_nonneg(v):
     return any(atom_interval(a)[1] >= 0 for a in v)
 
 
+ENV_FAULTS = False      # set by a check that wants read() on a valid blocking descriptor to fail with other errors than EINTR too
+
+
 def new_interp(prog, overrides=None, no_inline=(), K=None, extra_models=None, keep_live=()):
     ov = dict(OVERRIDES)
     if overrides:
@@ -64,6 +67,7 @@ def new_interp(prog, overrides=None, no_inline=(), K=None, extra_models=None, ke
     if extra_models:
         models.update(extra_models)
     I = Interp(prog, models=models, overrides=ov, no_inline=no_inline, K=K)
+    I.env_faults = ENV_FAULTS
     I.keep_live = set(keep_live)
     return I
 
